@@ -32,6 +32,10 @@ func RunSolver(name string, script string, timeout time.Duration) Result {
 	switch name {
 	case "z3-new":
 		argv = []string{"z3-new", "-smt2", "-in"}
+	case "z3-new-sat":
+		// the same binary with its SAT-based EUF/bit-vector core: a different
+		// search that decides some offset-arithmetic goals several times faster
+		argv = []string{"z3-new", "sat.euf=true", "tactic.default_tactic=sat", "-smt2", "-in"}
 	case "z3":
 		argv = []string{"z3", "-smt2", "-in"}
 	case "cvc5":
